@@ -31,6 +31,12 @@ pub fn vslice_eq<T: VPrimEq>(a: &[T], b: &[T]) -> (r: bool)
     ensures r == (a@ == b@),
 { unimplemented!() }
 
+/// `vec![e; n]` (rule N32): `e` is evaluated once; the vector holds n copies of that one value
+#[verifier::external_body]
+pub fn vrepeat<T: Copy>(e: T, n: usize) -> (r: Vec<T>)
+    ensures r@.len() == n, forall|i: int| 0 <= i < n ==> #[trigger] r@[i] == e,
+{ unimplemented!() }
+
 /// `x[a..b].copy_from_slice(y)`: panics unless a <= b <= len and y.len() == b - a
 #[verifier::external_body]
 pub fn vcopy_into<T: Copy, const N: usize>(x: &mut [T; N], a: usize, b: usize, y: &[T])
